@@ -16,6 +16,7 @@ import (
 	"strings"
 	"sync/atomic"
 	"time"
+	"unicode/utf8"
 
 	"github.com/la5nta/wl2k-go/transport"
 )
@@ -413,6 +414,20 @@ func parseProposalAnswer(str string, props []*Proposal, l *log.Logger) error {
 	return nil
 }
 
+// encodeTitle word-encodes the title (this field must be ASCII-only), truncated to the protocol's 80 byte limit.
+//
+// The header length is sent as a single byte, so an oversized title would corrupt the frame.
+func encodeTitle(title string) string {
+	for {
+		encoded := mime.QEncoding.Encode("utf-8", title)
+		if len(encoded) <= 80 {
+			return encoded
+		}
+		_, size := utf8.DecodeLastRuneInString(title)
+		title = title[:len(title)-size]
+	}
+}
+
 func (s *Session) writeCompressed(rw io.ReadWriter, p *Proposal) (err error) {
 	s.log.Printf("Transmitting [%s] [offset %d]", p.title, p.offset)
 
@@ -427,7 +442,7 @@ func (s *Session) writeCompressed(rw io.ReadWriter, p *Proposal) (err error) {
 	writer := bufio.NewWriter(rw)
 
 	var (
-		title    = mime.QEncoding.Encode("utf-8", p.title) // Word-encode the title since this field must be ASCII-only
+		title    = encodeTitle(p.title)
 		offset   = fmt.Sprintf("%d", p.offset)
 		length   = len(title) + len(offset) + 2
 		checksum int64
